@@ -17,10 +17,10 @@ def cells(tier):
     out = []
     q = tier == "quick"
     out += grid(MON, [1, 2], ["A2", "A2|M3/2"], ["none", "cancel0", "cancel0+cancel1", "cgroupA", "call", "cancel0+flush"],
-                ["plain", "coro"], [["ret", "exc"]],
-                skip=lambda s, rn, dn, cn, o: cn == "coro" and rn != "A2")
+                ["plain", "coro"], [["ret", "exc"], ["ret"]],
+                skip=lambda s, rn, dn, cn, o: (cn == "coro" and rn != "A2") or (len(o) == 1) != (q and rn == "A2|M3/2" and s == 2 and "+" in dn))
     out += grid(MON, [2], ["A2", "M3/2"], ["cancel0", "cancelM0", "call", "call+flush"], ["partial", "slowccb", "slowecb"], [["ret"]])
-    out += grid(MON, ["inf"], ["A2|M3/2"], ["cancel0", "call", "gac"], ["plain"], [["ret", "exc"]])
+    out += grid(MON, ["inf"], ["A2|M3/2"], ["cancel0", "call", "gac"], ["plain"], [["ret"]] if q else [["ret", "exc"]])
     # absorbing workers: a cancelled coroutine that swallows the cancellation ends normally
     for size in [2]:
         sc = scen(pool(size), [[A("A", 2, worker="absorb")], [cancel(rid("A", 0))], [cancel(rid("A", 1))]],
